@@ -33,7 +33,7 @@ CLAIMED = {
             "unification computed on strict observations: result content and order, refusal iff a single-valued "
             "conflict exists, idempotence, bundle-level unified(), source unchanged.", TECH, NOTE),
     "C09": ("All states of a 23-letter document alphabet to depth 3 are collected; for every ordered pair (d, other) "
-            "every sequence of up to 2 (thorough 3) operations from update / add_bundle (document, no identifier, "
+            "every sequence of up to 2 operations (thorough: 3 on the smallest pairs, 1-2 on deep x shallow and deep x deep pairs) from update / add_bundle (document, no identifier, "
             "duplicate identifier as object and as string, stand-alone bundle, bundle under another identifier, unresolvable identifier) / flattened is executed on fresh replays and compared step by "
             "step with multiset arithmetic on strict observations; other must stay unchanged, refusals must leave d "
             "unchanged, and the result must survive a PROV-JSON round trip.", TECH, NOTE),
